@@ -32,7 +32,7 @@ class C20(Property):
                     cases.append(Case("g%dp%d" % (k, j), opts, [rng.choice(pool)], tags={"role": "parse", "ambig": True}))
                 k += 1
                 continue
-            opts, names = gen.gen_options(rng, features=("alt", "adj", "cmd", "pos"), allow_catch=rng.random() < 0.3, env_p=0.1)
+            opts, names = gen.gen_options(rng, features=("alt", "adj", "cmd", "pos", "grp"), allow_catch=rng.random() < 0.3, env_p=0.1)
             if r < 0.15:
                 # a help text with a fenced code block
                 for x in gen.walk(opts):
